@@ -5,7 +5,7 @@ from .poly import Poly
 from .tys import tstr
 
 NONFOREIGN_PREFIXES = (
-    "core::ptr::", "core::mem::", "core::slice::<impl [T]>::", "core::slice::from_raw_parts", "core::hint::", "core::alloc::",
+    "core::ptr::", "core::mem::", "core::slice::<impl [T]>::", "core::slice::from_raw_parts", "core::slice::from_ref", "core::slice::from_mut", "core::hint::", "core::alloc::",
     "alloc::alloc::", "alloc::boxed::Box::<T>::from_raw", "alloc::boxed::Box::<T>::into_raw", "alloc::boxed::Box::<T>::new",
     "alloc::boxed::Box::<T, A>::from_raw", "alloc::boxed::Box::<T, A>::into_raw",
     "core::option::Option::<T>::is_", "core::result::Result::<T, E>::is_", "core::fmt::Arguments", "core::fmt::rt::",
